@@ -72,6 +72,19 @@ pub struct RMsg {
     /// explicit worlds only: (world index, job index, request key, observation hash)
     #[serde(default)]
     pub obs: Vec<(usize, usize, u64, u64)>,
+    /// C05: Debug/Trace references computed in this item: (origin world tag, job index, log level, reference tag,
+    /// hash of the reference world's observation as `last_obs_hash` computes it in a fresh process)
+    #[serde(default)]
+    pub dbg_refs: Vec<(String, usize, u8, String, u64)>,
+}
+
+/// Observation hash of a job run in a world of log level `level`: above Info the Debug/Trace records count.
+pub fn obs_hash_at(obs: &Obs, dbg: &(u64, u32, String), level: u8) -> u64 {
+    if level > 3 {
+        mix(obs.hash(), dbg.0)
+    } else {
+        obs.hash()
+    }
 }
 
 /// wall-clock backstop per job during the search (normal jobs take 0.3-50 ms); suspects are re-run alone with 200 s
@@ -263,7 +276,7 @@ impl Worker {
 
     /// reference Debug/Trace log text of a request at a log level above Info: canonical solo world run at
     /// that level (digest, records, head)
-    fn dbg_reference(&mut self, job: &JobSpec, level: u8) -> ((u64, u32, String), World) {
+    fn dbg_reference(&mut self, job: &JobSpec, level: u8, origin: (&str, usize), rm: &mut RMsg) -> ((u64, u32, String), World) {
         let key = mix(job.key(), 0xdb6 + level as u64);
         if let Some(x) = self.dbgrefs.get(&key) {
             return x.clone();
@@ -274,8 +287,17 @@ impl Worker {
         cj.label = format!("reference at log level {}: {}", level, job.label);
         let mut w = World::solo("C05", cj);
         w.log_level = level;
-        let r = self.run(&format!("dbgref:{:016x}", key), &w);
-        let d = r.jobs[0].as_ref().unwrap().dbg.clone();
+        let rtag = format!("dbgref:{:016x}", key);
+        let r = self.run(&rtag, &w);
+        let jr0 = r.jobs[0].as_ref().unwrap();
+        let d = jr0.dbg.clone();
+        {
+            // what a pristine process must observe for this world (same formula as parent::last_obs_hash)
+            let mut h = Fnv::new();
+            h.write_u64(0);
+            h.write_u64(obs_hash_at(&jr0.obs, &jr0.dbg, level));
+            rm.dbg_refs.push((origin.0.to_string(), origin.1, level, rtag, h.finish()));
+        }
         if self.dbgrefs.len() > 2000 {
             self.dbgrefs.clear();
         }
@@ -290,7 +312,7 @@ impl Worker {
             if w.log_level > 3 && !jr.rlog.error_fired && !jr.wlog.error_fired {
                 // what RUST_LOG=debug|trace shows is a diagnostic too
                 bump(&mut rm.stats, "probe.debug_log_compared", 1);
-                let (d, dw) = self.dbg_reference(js, w.log_level);
+                let (d, dw) = self.dbg_reference(js, w.log_level, (tag, ji), rm);
                 if let Some(v) = oracle::check_debug_log(&d, &jr.dbg) {
                     let label = js.label.clone();
                     self.report(tag, "C05", v, vec![dw, w.clone()], &label, js.key(), rm);
@@ -495,7 +517,7 @@ impl Worker {
                     }
                     for (ji, jr) in r.jobs.iter().enumerate() {
                         if let Some(jr) = jr {
-                            rm.obs.push((wi, ji, jr.key, jr.obs.hash()));
+                            rm.obs.push((wi, ji, jr.key, obs_hash_at(&jr.obs, &jr.dbg, w.log_level)));
                             if std::env::var("SIMC_SHOW_PRE").is_ok() {
                                 rm.outcomes.push(format!("diag: {}", jr.obs.diag));
                             }
